@@ -10,6 +10,11 @@
 package seq
 
 //@ fileprops C14 C15
+// Ownership of iterators (DESIGN 6/C14): an iterator handed to a combinator belongs to it
+// from then on and advancing it changes the abstract state of the whole tree below it. The
+// frame of these functions (which objects of the tree they advance) is therefore not stated
+// location by location and not checked; expression trees are assumed to share no iterator.
+//@ fileopt frame=off
 
 //@ interface Seq
 //@   state view : List[T]
